@@ -75,14 +75,14 @@ fn encode_active_layout(n: usize) {
 }
 // the entry count is concrete per harness: a symbolic count makes the image a symbolic-size allocation
 #[kani::proof]
-#[kani::unwind(70)]
+#[kani::unwind(134)]
 fn c10_journal_encode_active_layout_n1() { encode_active_layout(1) }
 #[kani::proof]
-#[kani::unwind(70)]
+#[kani::unwind(134)]
 fn c10_journal_encode_active_layout_n2() { encode_active_layout(2) }
 
 #[kani::proof]
-#[kani::unwind(70)]
+#[kani::unwind(134)]
 fn c10_journal_encode_clear_layout() {
     use_recorder();
     let generation: u64 = kani::any();
